@@ -776,6 +776,7 @@ type ringCtx struct {
 	fu       followUp
 	handle   string
 	newAfter *mRing // base content with the faulted operation applied
+	trk      *stepTracker
 }
 
 func (c *ringCtx) opName() string { return "ring/" + c.j.hist.name + "/" + c.j.fop.name }
@@ -1005,16 +1006,14 @@ func (m *monitor) ringCase(c0 *ringCtx, call ksrig.FaultCall, fc faultCase, fu f
 	r.Case()
 	c := *c0
 	c.call, c.fc, c.fu, c.handle = call, fc, fu, handle
-	done := make(chan struct{})
-	go func() {
-		defer close(done)
-		m.ringCaseInner(&c)
-	}()
-	select {
-	case <-done:
-	case <-time.After(60 * time.Second):
-		r.Inconclusive(fmt.Sprintf("watchdog: %s/%s call#%d %s %s follow-up %s@%s did not finish in 60 s", c.kind, c.opName(), call.Seq, call.Class(), fc.modeName(), fu.kind, handle))
+	detail := func() map[string]interface{} {
+		return map[string]interface{}{"layer": "ring-level (api.MutableKeyRing on one kept-open handle)", "format": c.kind, "history": c.j.hist.name, "operation": c.j.fop.op.String(),
+			"fault_call_index": call.Seq, "fault_call": call.Class(), "fault_mode": fc.modeName(), "followup_kind": fu.kind, "followup_handle": handle}
 	}
+	m.guardCase("c08-ring", c.kind, c.opName(), call.Class(), fc.modeName(), detail, func(t *stepTracker) {
+		c.trk = t
+		m.ringCaseInner(&c)
+	})
 }
 
 // judge compares an observation with the candidates. Returns the name of the matching candidate ("" if none; then the
@@ -1123,7 +1122,9 @@ func (m *monitor) ringCaseInner(c *ringCtx) {
 	must(err)
 	seqs := copySeqs(c.base.seqs)
 	stA.be.SetPlan(ksrig.FaultPlan{At: fc.k, Mode: fc.mode, TornBytes: fc.torn})
+	c.trk.step("operation")
 	out := ksrig.FaultRun(func() error { return execRingOp(ringA, seqs, c.j.fop.op) })
+	c.trk.step("after-operation")
 	got := stA.be.Calls()
 	if !stA.be.Fired() || len(got) < fc.k || got[fc.k-1].Class() != c.call.Class() {
 		r.Inconclusive(fmt.Sprintf("ring layer: trace diverged before the fault point: %s/%s call#%d expected %s", c.kind, c.opName(), fc.k, c.call.Class()))
@@ -1161,6 +1162,7 @@ func (m *monitor) ringCaseInner(c *ringCtx) {
 		if out.Err != nil {
 			r.Count("ring_error_returns", 1)
 			// the process lives on: what the SAME ring handle shows (old or new; which of them is not demanded to agree with the storage)
+			c.trk.step("reads after the error (same ring handle)")
 			oa := observeRing(func() (api.KeyRing, error) { return ringA, nil })
 			r.Count("ring_same_handle_views_checked", 1)
 			m.judge(c, "after-error(same-handle)", oa, &oRing{err: "not read"}, names0, cands0, nil, nil, "")
@@ -1169,7 +1171,9 @@ func (m *monitor) ringCaseInner(c *ringCtx) {
 		}
 	}
 	// restart view of the post-fault storage
+	c.trk.step("reads and listings after the fault (fresh store)")
 	o1, ob1 := m.observeWorld(c, afterFault, live)
+	c.trk.step("follow-up writes")
 	outcome1 := m.judge(c, afterFault, o1, ob1, names0, cands0, by0, nil, "old")
 	sample["after_fault"] = outcome1
 	if outcome1 == "" {
@@ -1306,6 +1310,7 @@ func (m *monitor) ringCaseInner(c *ringCtx) {
 		names, cands, by = names0, cands0, by0
 	}
 	phase := "after-followup(" + c.fu.kind + "@" + c.handle + ")"
+	c.trk.step("reads and listings after the follow-up writes")
 	o2, ob2 := m.observeWorld(c, phase, live)
 	r.Count("ring_reopen_views_compared", 1)
 	final := m.judge(c, phase, o2, ob2, names, cands, by, touched, outcome1)
